@@ -492,13 +492,30 @@ class Interp(ExprMixin):
                     acc = self.call_value(fval, [acc, x], {}, st, node)
                 return acc
         args = []
+        unknown_star = []
         for a in node.args:
             if isinstance(a, ast.Starred):
                 v = self.eval(a.value, st)
                 if isinstance(v, Tup):
                     args.extend(v.items)        # f(*known_sequence)
                     continue
+                unknown_star.append((len(args), v))
+                args.append(v)
+                continue
             args.append(self.eval(a, st))
+        if len(unknown_star) == 1 and not any(k.arg is None for k in node.keywords) and isinstance(unknown_star[0][1], Poly):
+            # f(*seq, ...) with one sequence of unknown length: it fills the positional parameters that are left
+            try:
+                fv = self.eval(fn, st) if isinstance(fn, ast.Name) else None
+            except Exception:
+                fv = None
+            fi = fv.value if isinstance(fv, Const) and isinstance(fv.value, FuncInfo) else None
+            if fi is not None and fi.cls is None and fi.node.args.vararg is None:
+                npos = len(fi.node.args.posonlyargs) + len(fi.node.args.args) - len([k for k in node.keywords])
+                need = npos - (len(args) - 1)
+                if 1 <= need <= 6:
+                    pos, v = unknown_star[0]
+                    args[pos:pos + 1] = [nf.index(v, Poly.const(i)) for i in range(need)]
         kwargs = {}
         for k in node.keywords:
             v = self.eval(k.value, st)
